@@ -110,6 +110,7 @@ type vfResult struct {
 	LeakedBubble bool           `json:"leaked_bubble,omitempty"`
 	SyncCalls  [][2]int         `json:"sync_calls,omitempty"` // driver calls (cache, primary) per fault-free sync, for enumeration
 	Variant    string           `json:"variant,omitempty"`
+	Rule       string           `json:"rule,omitempty"`
 	Conc       *concOutcome     `json:"conc,omitempty"`
 }
 
@@ -676,6 +677,9 @@ type vfCall struct {
 
 func (w *vfWorld) prepare(r *vfReq) *vfCall {
 	w.res.Requests++
+	if w.primary != nil && (w.sched == nil || !w.sched.concur) {
+		w.primary.takeWrites() // writes observed after this point belong to the request (effect attribution)
+	}
 	c := &vfCall{w: w, r: r, ctx: &vfReqCtx{req: r}, resp: &vfResp{Header: http.Header{}}}
 	req, early := w.buildHTTP(r)
 	if early != nil {
